@@ -45,6 +45,8 @@ func main() {
 		runC18(r, rng, thorough)
 	case "C13":
 		runC13(r, rng, thorough)
+	case "C12":
+		runC12(r, rng, thorough)
 	case "C14":
 		runC14(r, rng, thorough)
 	case "C17":
